@@ -34,3 +34,233 @@ Proof.
 Qed.
 
 End LoopTerm.
+
+(* ================= termination of the traversals (fuel that always suffices) ================= *)
+From Fences Require Import GraphFuel GraphAnalysis.
+
+(* ---------- items(): depth is bounded by the number of nodes ---------- *)
+Definition unv (g : graph) (vis : list nat) : nat :=
+  length (filter (fun x => negb (mem x vis)) (seq 0 (length g))).
+
+Lemma filter_length_mono {A} (p q : A -> bool) l :
+  (forall x, In x l -> p x = true -> q x = true) -> length (filter p l) <= length (filter q l).
+Proof.
+  induction l as [|x r IH]; simpl; intros H; auto.
+  assert (IH' := IH (fun y Hy => H y (or_intror Hy))).
+  destruct (p x) eqn:P.
+  - rewrite (H x (or_introl eq_refl) P). simpl. lia.
+  - destruct (q x); simpl; lia.
+Qed.
+
+Lemma unv_mono g vis vis' : (forall x, In x vis -> In x vis') -> unv g vis' <= unv g vis.
+Proof.
+  intros H. unfold unv. apply filter_length_mono. intros x _ Hx.
+  apply negb_true_iff in Hx. apply negb_true_iff.
+  destruct (mem x vis) eqn:M; auto. apply mem_In in M. apply H in M. apply mem_In in M. congruence.
+Qed.
+
+Lemma unv_add g vis n : n < length g -> mem n vis = false -> unv g (vis ++ [n]) < unv g vis.
+Proof.
+  intros L M. unfold unv.
+  assert (A : forall l, In n l -> NoDup l ->
+     length (filter (fun x => negb (mem x (vis ++ [n]))) l) < length (filter (fun x => negb (mem x vis)) l)).
+  { induction l as [|x r IH]; intros Hin ND; [contradiction|]. inversion ND; subst. simpl.
+    destruct Hin as [->|Hin].
+    - rewrite M. simpl.
+      assert (E : mem n (vis ++ [n]) = true) by (apply mem_In; apply in_or_app; right; left; reflexivity).
+      rewrite E. simpl.
+      assert (B : length (filter (fun x => negb (mem x (vis ++ [n]))) r) <= length (filter (fun x => negb (mem x vis)) r)).
+      { apply filter_length_mono. intros y _ Hy. apply negb_true_iff in Hy. apply negb_true_iff.
+        destruct (mem y vis) eqn:My; auto. apply mem_In in My.
+        assert (In y (vis ++ [n])) by (apply in_or_app; auto). apply mem_In in H. congruence. }
+      lia.
+    - specialize (IH Hin H2).
+      assert (Nx : x <> n) by (intros ->; contradiction).
+      assert (E : mem x (vis ++ [n]) = mem x vis).
+      { destruct (mem x vis) eqn:Mx.
+        - apply mem_In. apply in_or_app. left. apply mem_In. exact Mx.
+        - destruct (mem x (vis ++ [n])) eqn:Mx'; auto. apply mem_In in Mx'. apply in_app_or in Mx'.
+          destruct Mx' as [Hx|[Hx|[]]]; [apply mem_In in Hx; congruence|congruence]. }
+      rewrite E. destruct (mem x vis); simpl; lia. }
+  apply A; [apply in_seq; lia|apply seq_NoDup].
+Qed.
+
+Lemma outs_ok_lt g s i t : outs_ok g -> nth_error (outs_of g s) i = Some t -> t < length g.
+Proof.
+  intros OO N. apply OO in N. destruct (Nat.lt_ge_cases t (length g)) as [L|L]; auto.
+  unfold ins_of in N. rewrite getn_out in N by exact L. contradiction.
+Qed.
+
+Lemma dfs_terminates g (OO : outs_ok g) : forall f vis n,
+  n < length g -> unv g vis < f ->
+  exists vis', dfs f g vis n = Ok vis' /\ (forall x, In x vis -> In x vis').
+Proof.
+  induction f as [|f IH]; intros vis n L U; [lia|]. simpl.
+  destruct (mem n vis) eqn:M; [eauto|].
+  pose proof (unv_add g vis n L M) as U1.
+  destruct (is_dec g n); [|exists (vis ++ [n]); split; auto; intros; apply in_or_app; auto].
+  assert (G : forall l visa, (forall t, In t l -> t < length g) -> unv g visa < f ->
+             exists visb, foldM (dfs f g) l visa = Ok visb /\ (forall x, In x visa -> In x visb)).
+  { induction l as [|t l IHl]; intros visa Hl Ua; simpl; [eauto|].
+    destruct (IH visa t (Hl t (or_introl eq_refl)) Ua) as (v1 & E1 & S1). rewrite E1. simpl.
+    destruct (IHl v1 (fun x Hx => Hl x (or_intror Hx))) as (v2 & E2 & S2).
+    { pose proof (unv_mono g visa v1 S1). lia. }
+    exists v2. split; auto. }
+  destruct (G (outs_of g n) (vis ++ [n])) as (v & E & S1).
+  - intros t Ht. apply In_nth_error in Ht. destruct Ht as [i Hi]. eapply outs_ok_lt; eauto.
+  - lia.
+  - exists v. split; auto. intros x Hx. apply S1. apply in_or_app. auto.
+Qed.
+
+Corollary items_terminates g root : outs_ok g -> root < length g ->
+  forall f, length g < f -> exists its, items f g root = Ok its.
+Proof.
+  intros OO L f F. destruct (dfs_terminates g OO f [] root L) as (v & E & _).
+  - unfold unv. pose proof (filter_length_le' (fun x => negb (mem x [])) (seq 0 (length g))).
+    rewrite seq_length in H. lia.
+  - eauto.
+Qed.
+
+(* ---------- the annotation passes: depth is bounded by the number of transition records ---------- *)
+Definition dle (a b : dist) : Prop :=
+  match a, b with Some x, Some y => x <= y | _, None => True | None, Some _ => False end.
+Definition map_le (m' m : amap) : Prop := forall a b, dle (m' a b) (m a b).
+Definition dlt (d : dist) (k : nat) : Prop := match d with Some x => x < k | None => False end.
+
+Lemma dle_refl a : dle a a. Proof. destruct a; simpl; auto. Qed.
+Lemma dle_trans a b c : dle a b -> dle b c -> dle a c.
+Proof. destruct a, b, c; simpl; intros; try lia; auto; contradiction. Qed.
+Lemma map_le_refl m : map_le m m. Proof. intros a b. apply dle_refl. Qed.
+Lemma map_le_trans a b c : map_le a b -> map_le b c -> map_le a c.
+Proof. intros H1 H2 x y. eapply dle_trans; eauto. Qed.
+Lemma map_le_aupd m a b len : dist_lt (Some len) (m a b) = true -> map_le (aupd m a b (Some len)) m.
+Proof.
+  intros H x y. unfold aupd. destruct ((x =? a) && (y =? b)) eqn:E; [|apply dle_refl].
+  apply andb_true_iff in E. destruct E as [E1 E2]. apply Nat.eqb_eq in E1, E2. subst.
+  destruct (m a b) as [v|]; simpl in *; auto. apply Nat.ltb_lt in H. lia.
+Qed.
+Lemma dlt_le d d' k : dle d' d -> dlt d k -> dlt d' k.
+Proof. destruct d, d'; simpl; intros; try lia; auto; contradiction. Qed.
+Lemma dlt_weaken d k k' : k <= k' -> dlt d k -> dlt d k'.
+Proof. destruct d; simpl; intros; auto. lia. Qed.
+
+Definition recs_in (g : graph) : list (nat * nat) :=
+  flat_map (fun n => map (fun p => (n, p)) (seq 0 (length (ins_of g n)))) (seq 0 (length g)).
+Definition recs_out (g : graph) : list (nat * nat) :=
+  flat_map (fun n => map (fun p => (n, p)) (seq 0 (length (outs_of g n)))) (seq 0 (length g)).
+
+Lemma in_recs_in g t pos : t < length g -> pos < length (ins_of g t) -> In (t, pos) (recs_in g).
+Proof.
+  intros Lt Lp. unfold recs_in. apply in_flat_map. exists t. split; [apply in_seq; lia|].
+  apply in_map_iff. exists pos. split; auto. apply in_seq. lia.
+Qed.
+Lemma in_recs_out g s i : s < length g -> i < length (outs_of g s) -> In (s, i) (recs_out g).
+Proof.
+  intros Ls Li. unfold recs_out. apply in_flat_map. exists s. split; [apply in_seq; lia|].
+  apply in_map_iff. exists i. split; auto. apply in_seq. lia.
+Qed.
+
+Lemma index_where_some {A} (p : A -> bool) : forall l k x, In x l -> p x = true ->
+  exists j, index_where p l k = Some (k + j) /\ j < length l.
+Proof.
+  induction l as [|y r IH]; intros k x Hin Px; [contradiction|]. simpl.
+  destruct (p y) eqn:Py; [exists 0; split; [f_equal; lia|simpl; lia]|].
+  destruct Hin as [->|Hin]; [congruence|].
+  destruct (IH (S k) x Hin Px) as (j & E & Lj). exists (S j). split; [rewrite E; f_equal; lia|simpl; lia].
+Qed.
+
+Lemma stack_room {A} (stack all : list A) x :
+  NoDup stack -> incl stack all -> In x all -> ~ In x stack -> length stack < length all.
+Proof.
+  intros ND I Hx Nx.
+  assert (NoDup (x :: stack)) by (constructor; auto).
+  assert (incl (x :: stack) all) by (intros y [<-|Hy]; auto).
+  pose proof (NoDup_incl_length H H0). simpl in H1. lia.
+Qed.
+
+Section AfTerm.
+Variable V : variant.
+Variable g : graph.
+Hypothesis FA : fix_af V = true.
+Hypothesis OO : outs_ok g.
+
+Lemma af_decreases : forall f lr n len lr', af V f g lr n len = Ok lr' -> map_le lr' lr.
+Proof.
+  induction f as [|f IH]; intros lr n len lr' H; cbn [af] in H; [discriminate|].
+  destruct (is_dec g n); [|inversion H; subst; apply map_le_refl].
+  revert lr H. generalize (enumerate (outs_of g n)).
+  induction l as [|[idx t] l IHl]; intros lr H; cbn [foldM bind] in H; [inversion H; subst; apply map_le_refl|].
+  destruct (index_where _ _ _) as [pos|]; [|discriminate].
+  destruct (dist_lt (Some len) (lr t pos)) eqn:E.
+  - destruct (af V f g (aupd lr t pos (Some len)) t (S len)) as [lr1| | |] eqn:E1; cbn [bind] in H; try discriminate.
+    eapply map_le_trans; [eapply IHl; eauto|]. eapply map_le_trans; [eapply IH; eauto|]. apply map_le_aupd. exact E.
+  - cbn [bind] in H. eapply IHl; eauto.
+Qed.
+
+Lemma af_terminates : forall f lr n len stack,
+  NoDup stack -> incl stack (recs_in g) ->
+  (forall r, In r stack -> dlt (lr (fst r) (snd r)) len) ->
+  length (recs_in g) - length stack < f ->
+  exists lr', af V f g lr n len = Ok lr'.
+Proof.
+  induction f as [|f IH]; intros lr n len stack ND I St Fu; [lia|]. cbn [af].
+  destruct (is_dec g n) eqn:D; [|eauto].
+  assert (G : forall l (k : nat) lr0, (forall i t, In (i, t) l -> nth_error (outs_of g n) i = Some t) ->
+             map_le lr0 lr ->
+             exists lr', foldM (fun lr '(idx, t) =>
+               match index_where (af_pick V n idx) (ins_of g t) 0 with
+               | None => PyErr EIndexError
+               | Some pos => if dist_lt (Some len) (lr t pos) then af V f g (aupd lr t pos (Some len)) t (S len) else Ok lr
+               end) l lr0 = Ok lr' /\ map_le lr' lr0).
+  { induction l as [|[idx t] l IHl]; intros k lr0 Hl M; cbn [foldM bind]; [exists lr0; split; auto; apply map_le_refl|].
+    pose proof (Hl idx t (or_introl eq_refl)) as Nt.
+    pose proof (OO _ _ _ Nt) as Hin.
+    destruct (index_where_some (af_pick V n idx) (ins_of g t) 0 (n, idx) Hin) as (pos & E & Lp).
+    { unfold af_pick. rewrite FA, !Nat.eqb_refl. reflexivity. }
+    simpl in E. rewrite E.
+    destruct (dist_lt (Some len) (lr0 t pos)) eqn:DL.
+    - assert (Nin : ~ In (t, pos) stack).
+      { intros Hs. specialize (St _ Hs). simpl in St. pose proof (M t pos) as Ml.
+        destruct (lr0 t pos) as [v0|], (lr t pos) as [v|]; simpl in *; try contradiction.
+        apply Nat.ltb_lt in DL. lia. }
+      assert (Hrec : In (t, pos) (recs_in g)) by (apply in_recs_in; auto; eapply outs_ok_lt; eauto).
+      pose proof (stack_room stack (recs_in g) (t, pos) ND I Hrec Nin) as Room.
+      destruct (IH (aupd lr0 t pos (Some len)) t (S len) ((t, pos) :: stack)) as (lr1 & E1).
+      + constructor; auto.
+      + intros r [<-|Hr]; auto.
+      + intros r [<-|Hr]; simpl.
+        * rewrite aupd_same. simpl. lia.
+        * apply dlt_weaken with (k := len); [lia|].
+          eapply dlt_le; [|apply St; exact Hr].
+          eapply dle_trans; [apply map_le_aupd; exact DL|apply M].
+      + simpl. lia.
+      + rewrite E1. cbn [bind].
+        pose proof (af_decreases _ _ _ _ _ E1) as M1.
+        assert (M2 : map_le lr1 lr).
+        { eapply map_le_trans; [exact M1|]. eapply map_le_trans; [apply map_le_aupd; exact DL|exact M]. }
+        destruct (IHl (S k) lr1 (fun i x Hx => Hl i x (or_intror Hx)) M2) as (lr2 & E2 & M3).
+        exists lr2. split; auto. eapply map_le_trans; [exact M3|].
+        eapply map_le_trans; [exact M1|]. apply map_le_aupd. exact DL.
+    - cbn [bind]. destruct (IHl (S k) lr0 (fun i x Hx => Hl i x (or_intror Hx)) M) as (lr2 & E2 & M3).
+      exists lr2. split; auto. }
+  destruct (G (enumerate (outs_of g n)) 0 lr) as (lr' & E & _).
+  - intros i t Hin. unfold enumerate in Hin. clear - Hin.
+    assert (A : forall l k, In (i, t) (enum_from k l) -> k <= i /\ nth_error l (i - k) = Some t).
+    { induction l as [|x r IH]; intros k H; simpl in H; [contradiction|].
+      destruct H as [H|H]; [inversion H; subst; rewrite Nat.sub_diag; auto|].
+      destruct (IH (S k) H) as [A B]. split; [lia|]. replace (i - k) with (S (i - S k)) by lia. exact B. }
+    destruct (A _ _ Hin) as [_ B]. rewrite Nat.sub_0_r in B. exact B.
+  - apply map_le_refl.
+  - eauto.
+Qed.
+
+Corollary af_root_terminates lr0 root f :
+  length (recs_in g) < f -> (forall a b, lr0 a b = None) -> exists lr, af V f g lr0 root 0 = Ok lr.
+Proof.
+  intros F B. apply af_terminates with (stack := []); auto; try constructor.
+  - intros x [].
+  - intros r [].
+  - simpl. lia.
+Qed.
+
+End AfTerm.
